@@ -102,10 +102,15 @@ def sum_rows(t):
 def is_sum(t) -> bool:
     return t in ("B", "U") or (not isinstance(t, str) and t[0] in ("sum", "usum", "opt", "tup"))
 
-def mk_val(v):
+def mk_val(v, it=None):
     """value specs: ["true"] ["false"] ["unit"] ["int",w,x] ["float",x] ["str",s] ["tuple",[vs]]
     ["some",[vs]] ["none",[tys]] ["left",[vs],[tys]] ["right",[tys],[vs]] ["sum",tag,ty,[vs]]
-    ["usum",tag,n] ["fn",prog] ["arr",[vs],ty] ["list",[vs],ty] ["sarr",[vs],ty,name]"""
+    ["usum",tag,n] ["fn",prog] ["arr",[vs],ty] ["list",[vs],ty] ["sarr",[vs],ty,name]
+    it: None (default: every argument is handed over as a list, as always), or a OneShot (see below): arguments the
+    API types as Iterable / takes as *args are handed over as one-shot iterators, and a two-variant sum constant whose
+    elements have exactly the row's types is built with the convenience constructors val.Left / val.Right"""
+    if it is not None:
+        return _mk_val_oneshot(v, it)
     from hugr import val
     k = v[0]
     if k == "true":
@@ -184,12 +189,16 @@ def val_ty(v):
         return ["arr", len(v[1]), v[2]]
     raise ValueError(v)
 
-def mk_op(o):
+def mk_op(o, it=None):
     """op specs: ["noop",ty] ["not"] ["divmod"] ["custom",name,[ins],[outs]] ["mktup",[tys]]
     ["untup",[tys]] ["tag",i,sumty] ["some",[tys]] ["left",[l],[r]] ["right",[l],[r]]
-    ["callind"] (signature taken from the first wire)"""
+    ["callind"] (signature taken from the first wire)
+    it: None, or a OneShot: the rows of tys.Either (typed Iterable) are handed over as one-shot iterators"""
     from hugr import ops, tys
     k = o[0]
+    if it is not None and k in ("left", "right"):
+        e = tys.Either(it([mk_ty(x) for x in o[1]]), it([mk_ty(x) for x in o[2]]))
+        return ops.Left(e) if k == "left" else ops.Right(e)
     if k == "noop":
         return ops.Noop(mk_ty(o[1])) if o[1] is not None else ops.Noop()
     if k == "not":
@@ -217,6 +226,92 @@ def mk_op(o):
     if k == "callind":
         return ops.CallIndirect()
     raise ValueError(o)
+
+# ----------------------------------------------------------------------------- one-shot iterables (opt-in, per program)
+# A program with the key "oneshot" (an int seed, or the name of one form: "gen" | "iter" | "map" | "tuple" | "list") is
+# interpreted with every argument that the public API types as `Iterable[...]` (val.Left / val.Right / tys.Either rows,
+# TrackedDfg.track_wires) or takes as *args (add_op / add_nested / add_cfg / add_conditional / add_if / call /
+# set_outputs / Dfg(*types) / Cfg / TrackedDfg / add_block / val.Tuple / val.Some / val.None_ / extend(*commands) /
+# op(*wires)) handed over as a ONE-SHOT iterable instead of a list; arguments typed `list` / `Sequence` / `TypeRow`
+# keep being lists.  Two-variant sum constants are then also built with the convenience constructors (val.Left /
+# val.Right / val.Some / val.None_) when the elements have exactly the row's types.  Programs without the key are
+# interpreted exactly as before (no random draw, the same objects handed over).
+
+class OneShot:
+    FORMS = ("gen", "iter", "map", "tuple", "list")
+    def __init__(self, seed):
+        self.form = seed if isinstance(seed, str) else None
+        if self.form is not None and self.form not in self.FORMS:
+            raise ValueError(seed)
+        self.rng = random.Random(seed if self.form is None else 0)
+        self.handed = {}            # form -> how often (diagnostic)
+    def __call__(self, xs):
+        xs = list(xs)
+        f = self.form or self.rng.choice(("gen", "gen", "iter", "map", "tuple", "list"))
+        self.handed[f] = self.handed.get(f, 0) + 1
+        if f == "gen":
+            return (x for x in xs)
+        if f == "iter":
+            return iter(xs)
+        if f == "map":
+            return map(lambda x: x, xs)
+        if f == "tuple":
+            return tuple(xs)
+        return xs
+    def sugar(self):
+        """use a convenience constructor for a sum constant whose shape allows it?"""
+        return self.form is not None or self.rng.random() < 0.75
+    def pick(self, xs):
+        return xs[0] if self.form is not None else self.rng.choice(xs)
+
+def _plain_elems(vs, row):
+    """the generator's belief: the elements have exactly the types of the row (then val.Left / val.Right / val.Some,
+    which derive the row from the elements, build the very type the program names)"""
+    if len(vs) != len(row):
+        return False
+    try:
+        return all(tkey(val_ty(x)) == tkey(t) for x, t in zip(vs, row))
+    except (ValueError, KeyError, IndexError, TypeError):
+        return False
+
+def _mk_val_oneshot(v, it):
+    from hugr import val
+    k = v[0]
+    sub = lambda xs: [mk_val(x, it) for x in xs]
+    T = lambda xs: [mk_ty(x) for x in xs]
+    if k == "tuple":
+        return val.Tuple(*it(sub(v[1])))
+    if k == "some":
+        return val.Some(*it(sub(v[1])))
+    if k == "none":
+        return val.None_(*it(T(v[1])))
+    if k == "left":
+        return val.Left(it(sub(v[1])), it(T(v[2])))
+    if k == "right":
+        return val.Right(it(T(v[1])), it(sub(v[2])))
+    if k == "sum":
+        tag, t, vs = v[1], v[2], v[3]
+        rows = sum_rows(t) if is_sum(t) else None
+        if rows is not None and len(rows) == 2 and tag in (0, 1) and _plain_elems(vs, rows[tag]) and it.sugar():
+            forms = ["either"]
+            if rows[0] == []:
+                forms.append("option")
+            if it.pick(forms) == "option":
+                return val.Some(*it(sub(vs))) if tag == 1 else val.None_(*it(T(rows[1])))
+            if tag == 0:
+                return val.Left(it(sub(vs)), it(T(rows[1])))
+            return val.Right(it(T(rows[0])), it(sub(vs)))
+        return val.Sum(tag, mk_ty(t), sub(vs))            # vals: list[Value]
+    if k == "arr":
+        from hugr.std.collections.array import ArrayVal
+        return ArrayVal(sub(v[1]), mk_ty(v[2]))           # v: list[Value]
+    if k == "list":
+        from hugr.std.collections.list import ListVal
+        return ListVal(sub(v[1]), mk_ty(v[2]))
+    if k == "sarr":
+        from hugr.std.collections.static_array import StaticArrayVal
+        return StaticArrayVal(sub(v[1]), mk_ty(v[2]), v[3])
+    return mk_val(v)
 
 def mk_param(p):
     from hugr import tys
@@ -251,8 +346,14 @@ class Result:
     log: list = field(default_factory=list)        # (statement id, api call name) in execution order
 
 class _Interp:
-    def __init__(self):
+    def __init__(self, oneshot=None):
         self.r = Result(None)
+        self.it = OneShot(oneshot) if oneshot is not None else None     # see "one-shot iterables" above
+    def I(self, xs):
+        """an argument list that is unpacked (*args) or typed Iterable by the API: as it is, or one-shot"""
+        return xs if self.it is None else self.it(xs)
+    def WS(self, ids):
+        return self.I(self.W(ids))
     # -- regions ---------------------------------------------------------------
     def body(self, b, region, set_out):
         """Runs the statements of a dataflow region on builder `b`; binds region inputs first."""
@@ -262,7 +363,7 @@ class _Interp:
             self.r.wires[wid] = p
         for st in region["stmts"]:
             self.stmt(b, st)
-        set_out(*[self.r.wires[w] for w in region["outs"]])
+        set_out(*self.I([self.r.wires[w] for w in region["outs"]]))
     def bind(self, st, node, n=None):
         self.r.nodes[st["id"]] = node
         outs = st.get("outs", [])
@@ -277,18 +378,18 @@ class _Interp:
         r.log.append((st["id"], k))
         md = st.get("md")
         if k == "op":
-            op = mk_op(st["op"])
+            op = mk_op(st["op"], self.it)
             args = self.W(st["args"])
             via = st.get("via", "add_op")
             if via == "add_op":
-                n = b.add_op(op, *args, metadata=md) if md is not None else b.add_op(op, *args)
+                n = b.add_op(op, *self.I(args), metadata=md) if md is not None else b.add_op(op, *self.I(args))
             elif via == "add":
-                n = b.add(op(*args), metadata=md) if md is not None else b.add(op(*args))
+                n = b.add(op(*self.I(args)), metadata=md) if md is not None else b.add(op(*self.I(args)))
             else:
-                (n,) = b.extend(op(*args))
+                (n,) = b.extend(*self.I([op(*self.I(args))]))
             self.bind(st, n)
         elif k == "load":
-            v = mk_val(st["val"])
+            v = mk_val(st["val"], self.it)
             cp = st.get("const_parent", "here")
             if cp == "root" and not isinstance(b.hugr[b.hugr.root].op, (ops.Module, ops.DfParentOp)):
                 cp = "here"      # a Conditional / CFG root cannot hold constants
@@ -309,7 +410,7 @@ class _Interp:
             if st.get("inst") is not None:
                 kw["instantiation"] = mk_ty(st["inst"])
                 kw["type_args"] = [mk_arg(a) for a in st["targs"]]
-            n = b.call(f, *self.W(st["args"]), **kw)
+            n = b.call(f, *self.WS(st["args"]), **kw)
             self.bind(st, n)
         elif k == "loadfn":
             f = r.funcs[st["func"]]
@@ -322,12 +423,12 @@ class _Interp:
         elif k == "nested":
             if st.get("insert"):
                 from hugr.build import Dfg
-                inner = Dfg(*[mk_ty(t) for t in st["in_tys"]])
+                inner = Dfg(*self.I([mk_ty(t) for t in st["in_tys"]]))
                 self.body(inner, st["body"], inner.set_outputs)
-                n = b.insert_nested(inner, *self.W(st["args"]))
+                n = b.insert_nested(inner, *self.WS(st["args"]))
                 r.builders[st["id"]] = inner
             else:
-                with b.add_nested(*self.W(st["args"])) as inner:
+                with b.add_nested(*self.WS(st["args"])) as inner:
                     self.body(inner, st["body"], inner.set_outputs)
                 n = inner.parent_node
                 r.builders[st["id"]] = inner
@@ -345,17 +446,17 @@ class _Interp:
                 for i in st.get("order", range(len(cases))):
                     with cb.add_case(i) as c:
                         self.body(c, cases[i], c.set_outputs)
-                n = b.insert_conditional(cb, self.r.wires[st["cond"]], *self.W(st["args"]))
+                n = b.insert_conditional(cb, self.r.wires[st["cond"]], *self.WS(st["args"]))
                 r.builders[st["id"]] = cb
             elif style == "ifelse":
-                with b.add_if(self.r.wires[st["cond"]], *self.W(st["args"])) as if_:
+                with b.add_if(self.r.wires[st["cond"]], *self.WS(st["args"])) as if_:
                     self.body(if_, cases[1], if_.set_outputs)
                 with if_.add_else() as else_:
                     self.body(else_, cases[0], else_.set_outputs)
                 n = else_.conditional_node
                 r.builders[st["id"]] = else_
             else:
-                with b.add_conditional(self.r.wires[st["cond"]], *self.W(st["args"])) as cb:
+                with b.add_conditional(self.r.wires[st["cond"]], *self.WS(st["args"])) as cb:
                     for i in st.get("order", range(len(cases))):
                         with cb.add_case(i) as c:
                             self.body(c, cases[i], c.set_outputs)
@@ -377,11 +478,11 @@ class _Interp:
         elif k == "cfg":
             if st.get("insert"):
                 from hugr.build import Cfg
-                cfg = Cfg(*[mk_ty(t) for t in st["in_tys"]])
+                cfg = Cfg(*self.I([mk_ty(t) for t in st["in_tys"]]))
                 self.cfg_body(cfg, st)
-                n = b.insert_cfg(cfg, *self.W(st["args"]))
+                n = b.insert_cfg(cfg, *self.WS(st["args"]))
             else:
-                with b.add_cfg(*self.W(st["args"])) as cfg:
+                with b.add_cfg(*self.WS(st["args"])) as cfg:
                     self.cfg_body(cfg, st)
                 n = cfg.parent_node
             r.builders[st["id"]] = cfg
@@ -402,12 +503,12 @@ class _Interp:
         r = self.r
         k = st["k"]
         r.log.append((st["id"], k))
-        A = lambda args: [a[1] if a[0] == "i" else r.wires[a[1]] for a in args]
+        A = lambda args: self.I([a[1] if a[0] == "i" else r.wires[a[1]] for a in args])
         if k == "tadd":
-            op = mk_op(st["op"])
+            op = mk_op(st["op"], self.it)
             md = st.get("md")
             if st.get("via") == "extend":
-                (n,) = b.extend(op(*A(st["args"])))
+                (n,) = b.extend(*self.I([op(*A(st["args"]))]))
             else:
                 n = b.add(op(*A(st["args"])), metadata=md) if md is not None else b.add(op(*A(st["args"])))
             r.nodes[st["id"]] = n
@@ -415,7 +516,7 @@ class _Interp:
                 if wid is not None:
                     r.wires[wid] = n.out(j)
         elif k == "load":
-            n = b.load(mk_val(st["val"]))
+            n = b.load(mk_val(st["val"], self.it))
             self.bind(st, n)
         elif k == "track":
             i = b.track_wire(r.wires[st["w"]])
@@ -447,7 +548,7 @@ class _Interp:
             elif bl["kind"] == "succ":
                 bb = cfg.add_successor(self.r.wires[bl["pred"]])
             else:
-                bb = cfg.add_block(*[mk_ty(t) for t in bl["in_tys"]])
+                bb = cfg.add_block(*self.I([mk_ty(t) for t in bl["in_tys"]]))
             with bb:
                 if bl.get("single"):
                     self.body(bb, bl["body"], bb.set_single_succ_outputs)
@@ -472,7 +573,7 @@ class _Interp:
         k = p["root"]
         r = self.r
         if k == "dfg":
-            b = Dfg(*[mk_ty(t) for t in p["ins"]])
+            b = Dfg(*self.I([mk_ty(t) for t in p["ins"]]))
             self.body(b, p["body"], b.set_outputs)
         elif k == "func":
             b = Function(p["name"], [mk_ty(t) for t in p["ins"]])
@@ -491,25 +592,29 @@ class _Interp:
                 with b.add_case(i) as c:
                     self.body(c, p["cases"][i], c.set_outputs)
         elif k == "cfg":
-            b = Cfg(*[mk_ty(t) for t in p["in_tys"]])
+            b = Cfg(*self.I([mk_ty(t) for t in p["in_tys"]]))
             self.cfg_body(b, p)
         elif k == "tdfg":
             from hugr.build import TrackedDfg
-            b = TrackedDfg(*[mk_ty(t) for t in p["ins"]], track_inputs=p.get("track_inputs", True))
-            if not p.get("track_inputs", True):
-                for wid, port in zip(p["in_wires"], b.inputs()):
-                    r.wires[wid] = port
+            track_in = p.get("track_inputs", True)
+            # one-shot mode: track_inputs=True is track_wires(inputs()); spelled out, the wires as a one-shot iterable
+            spell = self.it is not None and track_in and self.it.pick([True, False])
+            b = TrackedDfg(*self.I([mk_ty(t) for t in p["ins"]]), track_inputs=track_in and not spell)
+            for wid, port in zip(p["in_wires"], b.inputs()):
+                r.wires[wid] = port
+            if spell:
+                b.track_wires(self.I(b.inputs()))
+            elif not track_in and self.it is not None:
+                b.track_wires(self.I([r.wires[wid] for wid in p.get("track_these", [])]))
+            elif not track_in:
                 for wid in p.get("track_these", []):
                     b.track_wire(r.wires[wid])
-            else:
-                for wid, port in zip(p["in_wires"], b.inputs()):
-                    r.wires[wid] = port
             for st in p["stmts"]:
                 self.tstmt(b, st)
         elif k == "module":
             b = Module()
             for i, v in enumerate(p.get("consts", [])):
-                r.funcs["const:%d" % i] = b.add_const(mk_val(v))
+                r.funcs["const:%d" % i] = b.add_const(mk_val(v, self.it))
             fbs = []
             for f in p["funcs"]:
                 if f.get("decl"):
@@ -538,7 +643,7 @@ class _Interp:
         return r
 
 def run(prog) -> Result:
-    return _Interp().root(prog)
+    return _Interp(prog.get("oneshot")).root(prog)
 
 # ----------------------------------------------------------------------------- generator
 MD_VALUES = [0, "", [], {}, None, 1, -3, 2.5, "x", "naïve ✓", [1, [2, {"a": None}]], {"k": {"n": [0, ""]}}, True, False]
@@ -882,6 +987,26 @@ class _Scope:
             st["via"] = "add"
         self.emit(st, outs)
     def s_load(self):
+        if "sumconst" in self.g.allow and self.rng.random() < 0.5:
+            # opt-in (not in the default `allow`: the default stream draws nothing here): a two-variant sum constant
+            # with a non-empty chosen row, the shape val.Left / val.Right / val.Some are made for
+            g, rng = self.g, self.rng
+            tag = rng.randrange(2)
+            rows = [[g.rand_ty(1, False, False) for _ in range(rng.randint(0, 2))] for _ in range(2)]
+            if rng.random() < 0.3:
+                rows[0] = []
+            vs = None
+            for _ in range(4):
+                rows[tag] = [g.rand_ty(1, False, False) for _ in range(rng.randint(1, 3))]
+                vs = [g.const_for(x, 1) for x in rows[tag]]
+                if all(v is not None for v in vs):
+                    break
+                vs = None
+            if vs is not None:
+                t = ["sum", rows]
+                self.emit({"k": "load", "val": ["sum", tag, t, vs],
+                           "const_parent": rng.choice(["here", "here", "node", "root"])}, [t])
+                return
         t = self.g.rand_ty(0, linear_ok=False)
         v = self.g.const_for(t)
         if v is None:
